@@ -14,7 +14,12 @@ ANGLE = {
            "something slightly different, a shared constant, a base class, a module-level cache, an import-time side effect). "
            "If the property really is self-contained, change a part of its own file that no earlier attempt touched "
            "(constructor, module-level helper, a property / accessor, `__init__` defaults)."),
-}[rnd]
+}
+ANGLE["13"] = ANGLE["12"] + (" Round 12 already did this once (its attempts are the last entries of the list below): pick a DIFFERENT "
+                             "neighbouring module or a different function of it, and prefer effects that only show when two features "
+                             "of the library meet (this property's feature used together with another helper or another part of the "
+                             "context machinery).")
+ANGLE = ANGLE[rnd]
 for line in open("/verif/properties.jsonl"):
     p = json.loads(line)
     pid = p["id"]
